@@ -199,7 +199,7 @@ _req['synthetic-type'] = 'issubclass_synthetic(block_type)'
 register(Contract(
     qual=SC + ':SCFG.insert_block', params=dict(IB_PARAMS, block_type='cls'), modifies=['self.graph'],
     locals={'jt': 'list[name]'},
-    requires=_req, ensures=_ens, loops=insert_block_loops(), cuts=insert_block_cuts(), frame_clauses=['others'],
+    requires=_req, ensures=_ens, loops=insert_block_loops(), cuts=insert_block_cuts(), frame_clauses=['others'], slices=6,
     hints=IB_HINTS,
     # R3 (DESIGN 1): a predecessor with a declared back edge loses that arc; proved on the complement
     known={'R3': 'any(len(self.graph[p].backedges) != 0 for p in predecessors)'},
@@ -235,11 +235,13 @@ def ibc_pred_clauses(table, graph_new='self.graph'):
         'pred-len': 'len(%s) == len(%s)' % (NJ, OJ),
         'pred-kept': 'all(implies(%s[i] not in successors, %s[i] == %s[i]) for i in range(len(%s)))' % (OJ, NJ, OJ, OJ),
         # every re-routed arc has its own assignment block, whose constant the head maps back to the arc's original target
-        'pred-rerouted': 'all(implies(%s[i] in successors, %s[i] not in old.self.graph and %s[i] != new_name'
-                         ' and is_assign_to(self.graph[%s[i]], %s[i], new_name, %s)'
-                         ' and self.graph[%s[i]].variable_assignment[%s] in %s'
-                         ' and %s[self.graph[%s[i]].variable_assignment[%s]] == %s[i]) for i in range(len(%s)))'
-                         % (OJ, NJ, NJ, NJ, NJ, VAR, NJ, VAR, table, table, NJ, VAR, OJ, OJ),
+        'pred-rerouted-fresh': 'all(implies(%s[i] in successors, %s[i] not in old.self.graph and %s[i] != new_name and %s[i] in self.graph)'
+                               ' for i in range(len(%s)))' % (OJ, NJ, NJ, NJ, OJ),
+        'pred-rerouted-assign': 'all(implies(%s[i] in successors, is_assign_to(self.graph[%s[i]], %s[i], new_name, %s)) for i in range(len(%s)))'
+                                % (OJ, NJ, NJ, VAR, OJ),
+        'pred-rerouted-table': 'all(implies(%s[i] in successors, self.graph[%s[i]].variable_assignment[%s] in %s'
+                               ' and %s[self.graph[%s[i]].variable_assignment[%s]] == %s[i]) for i in range(len(%s)))'
+                               % (OJ, NJ, VAR, table, table, NJ, VAR, OJ, OJ),
     }
 
 
@@ -282,12 +284,22 @@ _inner.update({
     'block': 'block == old.self.graph[name] and name in self.graph',
     'jt-len': 'len(jt) == len(%s)' % EJ,
     'jt-kept': 'all(implies(%s[i] not in _j_seen, jt[i] == %s[i]) for i in range(len(%s)))' % (EJ, EJ, EJ),
-    'jt-rerouted': 'all(implies(%s[i] in _j_seen, jt[i] not in old.self.graph and jt[i] != new_name'
-                   ' and is_assign_to(self.graph[jt[i]], jt[i], new_name, %s)'
-                   ' and self.graph[jt[i]].variable_assignment[%s] in branch_value_table'
-                   ' and branch_value_table[self.graph[jt[i]].variable_assignment[%s]] == %s[i]) for i in range(len(%s)))'
-                   % (EJ, VAR, VAR, VAR, EJ, EJ),
+    'jt-rerouted-fresh': 'all(implies(%s[i] in _j_seen, jt[i] not in old.self.graph and jt[i] != new_name and jt[i] in self.graph) for i in range(len(%s)))' % (EJ, EJ),
+    'jt-rerouted-assign': 'all(implies(%s[i] in _j_seen, is_assign_to(self.graph[jt[i]], jt[i], new_name, %s)) for i in range(len(%s)))' % (EJ, VAR, EJ),
+    'jt-rerouted-table': 'all(implies(%s[i] in _j_seen, self.graph[jt[i]].variable_assignment[%s] in branch_value_table'
+                         ' and branch_value_table[self.graph[jt[i]].variable_assignment[%s]] == %s[i]) for i in range(len(%s)))' % (EJ, VAR, VAR, EJ, EJ),
 })
+
+_base = ['table-keys', 'assign-blocks', 'kinds-assign', 'kinds-nonneg', 'dom-old', 'keys', 'pred-len', 'untouched', 'def', 'name', 'kinds', 'var', 'new-absent',
+         'block', 'jt-kept', 'jt-len']
+IBC_HINTS = {
+    'jt.index(s)': ['jt-kept', 'jt-len', 'block'],
+    'table-vals': ['table-vals', 'table-keys'],
+    'jt-kept': ['jt-kept', 'jt-len'],
+}
+for _c in ('fresh', 'assign', 'table'):
+    IBC_HINTS['jt-rerouted-' + _c] = _base + ['jt-rerouted-' + _c, 'jt-rerouted-fresh']
+    IBC_HINTS['pred-rerouted-' + _c] = _base + ['pred-rerouted-' + _c, 'pred-rerouted-fresh', 'jt-rerouted-' + _c, 'jt-rerouted-fresh']
 
 register(Contract(
     qual=SC + ':SCFG.insert_block_and_control_blocks', params=dict(IB_PARAMS), modifies=['self.graph', 'self.name_gen.kinds'],
@@ -305,6 +317,9 @@ register(Contract(
         # NG_inv for assignment-block names: no block of the graph already carries a name the generator is about to hand out
         'generator-fresh': 'all(not (is_generated(k, "synth_asign") and gen_index(k) >= get(self.name_gen.kinds, "synth_asign", 0)) for k in self.graph)',
         'branch-preds': 'all(table_ok(self.graph[p]) for p in predecessors if isinstance(self.graph[p], SyntheticBranch))',
+        # ... and no predecessor already jumps to such a name
+        'targets-not-generated': 'all(all(not (is_generated(t, "synth_asign") and gen_index(t) >= get(self.name_gen.kinds, "synth_asign", 0))'
+                                 ' for t in self.graph[p]._jump_targets) for p in predecessors)',
     },
     known={'R3': 'any(len(self.graph[p].backedges) != 0 for p in predecessors)'},
     ensures=_ens,
@@ -322,14 +337,7 @@ register(Contract(
         'for s in sorted(set(jt).intersection(successors))': LoopSpec(index='_j', inv=_inner, frame=['untouched']),
     },
     frame_clauses=['others'],
-    hints={
-        'jt.index(s)': ['jt-kept', 'jt-len', 'block'],
-        'pred-rerouted': ['pred-rerouted', 'jt-rerouted', 'jt-kept', 'jt-len', 'block', 'table-keys', 'assign-blocks', 'kinds-assign', 'dom-old', 'keys', 'pred-len', 'untouched',
-                          'def', 'name', 'kinds', 'var', 'new-absent'],
-        'table-vals': ['table-vals', 'table-keys'],
-        'jt-kept': ['jt-kept', 'jt-len'],
-        'jt-rerouted': ['jt-rerouted', 'jt-kept', 'jt-len', 'table-keys', 'assign-blocks', 'kinds-assign', 'dom-old', 'keys', 'def', 'name', 'kinds', 'var', 'new-absent', 'block'],
-    },
+    hints=IBC_HINTS, slices=8,
     properties=['C14', 'C06', 'C12', 'C18'],
     note='exact generated names and constants are checked at run time (runtime_ensures); the proved clauses state them up to the order of hand-out',
 ))
